@@ -2,7 +2,7 @@
 # usage: tools/confirm_seeded.sh <id> [--no-suite]
 # Confirms a sub-agent's seeded change in a scratch worktree outside /repo and /verif:
 #  demo passes on the unchanged tree, fails with the patch; the repository's own suite still passes with the patch.
-ID=$1; OUT=/tmp/seeded-out/$ID; WT=/tmp/cf-$ID
+ID=$1; OUT=${SEEDED_OUT:-/tmp/seeded-out}/$ID; WT=/tmp/cf-$ID
 rm -rf $WT; git -C /repo worktree prune; git -C /repo worktree add -q --detach $WT HEAD || exit 3
 /tmp/buildtools/build_ext.sh $WT >/dev/null 2>&1 || { echo "$ID: baseline build failed"; exit 3; }
 ( cd $WT && timeout 600 /venv/bin/python $OUT/demo.py >/tmp/cf-$ID.base.log 2>&1 ); base=$?
